@@ -4,6 +4,9 @@
 // real templates computed at compile time) and <tag> tells which C++ unit type carries them:
 //   N<k>  the k-th named unit of harness/C20/table.cxx (same order),  S  a unit::StandardUnit<...>,
 //   U  a unit::Unit<...>,  ?  anything else.
+// The tag is followed by  :f / :l / :i / :?  when the value type of the quantity is float / long double / int /
+// anything else but double (the programs are built so that every printed quantity is double-valued when the
+// operators promote as the built-in ones do); the value is then converted to double for printing.
 // A double is printed as  s <hex>, a bool as  b 0|1.
 #ifndef VERIF_C20_EMIT_HXX
 #define VERIF_C20_EMIT_HXX
@@ -69,16 +72,36 @@ namespace c20 {
     }
   }
 
+  template <typename T>
+  const char* value_type_tag() {
+    if constexpr (std::is_same_v<T, double>) {
+      return "";
+    } else if constexpr (std::is_same_v<T, float>) {
+      return ":f";
+    } else if constexpr (std::is_same_v<T, long double>) {
+      return ":l";
+    } else if constexpr (std::is_same_v<T, int>) {
+      return ":i";
+    } else {
+      return ":?";
+    }
+  }
+
   template <tfel::math::ImmutableQuantityConcept Q>
   void emit(std::ostream& os, const Q& q) {
     using U = tfel::math::quantity_unit<Q>;
-    static_assert(std::is_same_v<tfel::math::base_type<Q>, double>);
     constexpr auto e = u::exponents<U>;
-    os << " q " << tag<U>();
+    os << " q " << tag<U>() << value_type_tag<tfel::math::base_type<Q>>();
     for (const auto& x : e.exponents) os << " " << x.numerator << "/" << x.denominator;
-    os << " " << hex(tfel::math::base_type_cast(q));
+    os << " " << hex(static_cast<double>(tfel::math::base_type_cast(q)));
   }
   inline void emit(std::ostream& os, const double x) { os << " s " << hex(x); }
+  // other arithmetic results (float, int, long double): the value type is shown, they never compare equal to a double item
+  template <typename T>
+  requires(std::is_arithmetic_v<T> && !std::is_same_v<T, double> && !std::is_same_v<T, bool>)  //
+      void emit(std::ostream& os, const T x) {
+    os << " s" << value_type_tag<T>() << " " << hex(static_cast<double>(x));
+  }
   inline void emitb(std::ostream& os, const bool b) { os << " b " << (b ? 1 : 0); }
 }  // namespace c20
 #endif
